@@ -1021,6 +1021,20 @@ func vAny(s string) any {
 	if s == "null" {
 		return nullValue
 	}
+	if strings.HasPrefix(s, "m:") {
+		// a map value: m:k=v;k2=v2 (a value `null` asks for the key to be removed)
+		m := map[string]any{}
+		for _, p := range strings.Split(s[2:], ";") {
+			if kv := strings.SplitN(p, "=", 2); len(kv) == 2 && kv[0] != "" {
+				if kv[1] == "null" {
+					m[kv[0]] = nullValue
+				} else {
+					m[kv[0]] = kv[1]
+				}
+			}
+		}
+		return m
+	}
 	return s
 }
 
